@@ -246,6 +246,98 @@ func prepare(prop string) (worker string) {
 	return worker
 }
 
+// canary: a sensitivity self-test run by every check. The freshly generated overlay is copied, one
+// known property-breaking edit is applied to the *copy* (never to /repo), a second worker is built from
+// it and a few thousand runs must report a violation. If the edit's pattern is not in the tree (the tree
+// changed there) the canary is skipped; if it applies and nothing is reported the check has lost its
+// teeth and ends as harness trouble.
+type canarySpec struct {
+	file string // overlay-relative
+	old  string
+	new  string
+	runs int64
+	what string
+}
+
+var canaries = map[string][]canarySpec{
+	"C11": {{file: "network/netbios/nbt/nbt.go", old: "_, err = io.ReadFull(n.conn, buffer)", new: "_, err = n.conn.Read(buffer)", runs: 4000,
+		what: "body read with a single Read instead of io.ReadFull"}},
+	"C17": {{file: "network/netbios/nbtns/nbtns.go", old: "n.mu.RLock()", new: "_ = 0", runs: 8000, what: "QueryName without its read lock"},
+		{file: "network/netbios/nbtns/nbtns.go", old: "defer n.mu.RUnlock()", new: "_ = 0", runs: 0}},
+	"C18": {{file: "network/netbios/nbtns/udp_server.go", old: "copy(data, buf[:n])", new: "data = buf[:n]", runs: 8000, what: "handler goroutines share the receive buffer again"},
+		{file: "network/netbios/nbtns/server.go", old: "copy(data, buf[:n])", new: "data = buf[:n]", runs: 0}},
+}
+
+func runCanary(prop string, seed uint64, nw int) map[string]any {
+	specs := canaries[prop]
+	if len(specs) == 0 {
+		return map[string]any{"status": "none defined"}
+	}
+	cfg := propsCfg[prop]
+	src := filepath.Join(buildDir(), "overlay-"+prop)
+	dst := filepath.Join(buildDir(), "overlay-"+prop+"-canary")
+	os.RemoveAll(dst)
+	if out, err := runCmd(root, nil, "cp", "-r", src, dst); err != nil {
+		trouble("canary: %v %s", err, out)
+	}
+	defer os.RemoveAll(dst)
+	raw, _ := os.ReadFile(filepath.Join(dst, "overlay.json"))
+	raw = bytes.ReplaceAll(raw, []byte(src+"/"), []byte(dst+"/"))
+	os.WriteFile(filepath.Join(dst, "overlay.json"), raw, 0o644)
+	var runs int64
+	for _, sp := range specs {
+		f := filepath.Join(dst, sp.file)
+		b, err := os.ReadFile(f)
+		if err != nil || !bytes.Contains(b, []byte(sp.old)) {
+			return map[string]any{"status": "skipped", "reason": "the pattern the canary edits is not present in this tree: " + sp.old}
+		}
+		b = bytes.Replace(b, []byte(sp.old), []byte(sp.new), 1)
+		os.WriteFile(f, b, 0o644)
+		if sp.runs > runs {
+			runs = sp.runs
+		}
+	}
+	worker := filepath.Join(buildDir(), "worker-"+prop+"-canary")
+	defer os.Remove(worker)
+	args := []string{"build"}
+	if cfg.race {
+		args = append(args, "-race", "-gcflags=github.com/TheManticoreProject/Manticore/...=-l")
+	}
+	args = append(args, "-overlay", filepath.Join(dst, "overlay.json"), "-o", worker, "./harness/worker")
+	if out, err := runCmd(root, nil, goBin, args...); err != nil {
+		return map[string]any{"status": "skipped", "reason": "the edited copy does not build: " + firstLines(out, 3)}
+	}
+	per := (runs + int64(nw) - 1) / int64(nw)
+	var wg sync.WaitGroup
+	var mu sync.Mutex
+	found := map[string]int{}
+	total := int64(0)
+	for f := int64(0); f < runs; f += per {
+		wg.Add(1)
+		go func(f int64) {
+			defer wg.Done()
+			wo := spawn(worker, prop, seed, f, f+per, 0, "-budget", "60")
+			if wo.err != nil {
+				return
+			}
+			mu.Lock()
+			total += wo.sum.Runs
+			for _, r := range wo.recs {
+				if r.Kind == "violation" {
+					found[r.Run.Violation.Class]++
+				}
+			}
+			mu.Unlock()
+		}(f)
+	}
+	wg.Wait()
+	if len(found) == 0 {
+		trouble("sensitivity canary failed: %q was applied to a copy of the overlay and %d runs reported no violation", specs[0].what, total)
+	}
+	fmt.Printf("canary: %q applied to a scratch copy of the overlay -> detected (%v in %d runs)\n", specs[0].what, found, total)
+	return map[string]any{"status": "detected", "edit": specs[0].what, "runs": total, "violations_by_class": found}
+}
+
 type workerOut struct {
 	sum  *summary
 	recs []struct {
@@ -741,6 +833,7 @@ func main() {
 		}
 	}
 	fanWall := time.Since(t0).Seconds()
+	canaryRes := runCanary(prop, seed, nw)
 
 	// determinism comparison
 	mainHash := map[string]uint64{}
@@ -1009,6 +1102,8 @@ func main() {
 			"violations":                             vioList,
 			"race_reports_without_sut_frame_ignored": agg.RaceIgnored,
 			"src_digest":                             digest,
+			"exhaustive_enumerations":                enumRuns,
+			"sensitivity_canary":                     canaryRes,
 			"workers":                                nw,
 		},
 	}
